@@ -19,7 +19,7 @@ func TestMain(m *testing.M) {
 			"(2) rapid: long sequences (up to 300 / 2000 operations, key universe = capacity + 3, incl. GetOrPanic) over capacities 1..6, 99, 100, 101, 199, 200, all policies, with/without expiry (also the usual 'never' value, the largest Duration), synchronous and asynchronous eviction; (2b) runs of 8-20 x capacity operations at capacities 100 / 101 / 128 so that the frequency-sketch policies complete several sample periods; (2c) 2-6 goroutines doing Get / Set (run-unique values) / Delete on caches of capacity 1-3 and 100: no panic, no deadlock, no value notified twice, hits return values set for that key, at most capacity entries at quiescence, Close notifies exactly the residents (the package documents the cache as safe for concurrent access); (3) thorough: the same property under go test -fuzz via rapid.MakeFuzz. "+
 			"Oracle: a reference model that owns presence through the callbacks (present = set - deleted - notified): Len = |present| <= capacity after every operation; Get hits with the last value iff present; a miss of a present key is legal only by expiry and must be notified in that call; "+
 			"no callback for an absent key, no second callback for one residence, callback value = value held; Close notifies every remaining entry exactly once and the cache is inert afterwards; LRU victim = least recently used (exact), LFU victim has minimal use count (ties free), "+
-			"SLRU victims consistent with a segmented LRU for some protected size 0..capacity; every operation under a 20 s deadlock watchdog, any panic is a violation. "+
+			"SLRU victims consistent with a segmented LRU for some split into two non-empty segments (protected size 1..capacity-1; capacity 1: one segment); every operation under a 20 s deadlock watchdog, any panic is a violation. "+
 			"One evaluation = one sequence. Non-trivial = the sequence contains an eviction or an expiry; enumerated sequences are distinct by construction, random ones by (config, operation sequence)",
 		"Delete may notify 0 or 1 time; sliding expiry tolerated; TinyLFU victim choice and capacity 0 not asserted", "asynchronous mode: callbacks are awaited (bounded) after each operation")
 }
